@@ -1339,8 +1339,8 @@ func run(c *vf.Ctx) {
 		return
 	}
 	c.SetRule("one evaluation = one run of one scenario (DerivedVariable1-4/InheritFrom/DeriveValueFrom, DerivedSet, SubtractReactive, Counter, SortedSet x4, WaitGroup, EvictionState) on fresh objects: seeded writer goroutines on different inputs plus structural changes (inherit/unsubscribe source, Monitor, add/delete/re-add element, Replace on a source, weight updates of present and removed elements), then the defining function is recomputed from the inputs at quiescence (sequential scenarios: after every step); runs are distinct by construction (run seed); distinct_nontrivial counts runs in which at least two writer goroutines' activity spans overlapped by logical ticks (sequential scenarios: at least 3 effective steps)")
-	total := c.Pick(30000, 300000)
-	chunk := c.Pick(600, 4000)
+	total := c.Pick(30000, 600000)
+	chunk := c.Pick(600, 6000)
 	var jobs []job
 	for _, s := range scenarios {
 		n := total * s.share / 100
